@@ -177,6 +177,21 @@ def clone_part(ctx, dist):
             continue
         n += 1
         dist["clone_maps"] = dist.get("clone_maps", 0) + 1
+        if rng.random() < 0.35:
+            # the same value BOUND on the inner graph: bound values are shared on purpose and never go through clone, so the items
+            # of a mapping node work on the caller's object itself (as runner.map on the bound graph does)
+            shared = make()
+            outer_b = Graph([item.bind(ledger=shared).as_node().map_over("x", clone=clone)])
+            try:
+                got_b = (asyncio.run(AsyncRunner().run(outer_b, {"x": xs})) if is_async else SyncRunner().run(outer_b, {"x": xs}))["r"]
+            except Exception as e:  # noqa: BLE001
+                ctx.violation("oracle", f"mapping node over an inner graph with a BOUND {shape} value and clone={clone!r} raised {type(e).__name__}: {e}",
+                              case=dict(case, inner_bind=True))
+                got_b = None
+            n += 1
+            if got_b is not None and (sorted(inner(shared)) != sorted(xs) or sorted(map(len, got_b)) != list(range(1, len(xs) + 1))):
+                ctx.violation("oracle", f"a value bound on the inner graph of a mapping node (clone={clone!r}) did not reach the items as the bound object: "
+                              f"the caller's object holds {inner(shared)} after items {xs}, item results {got_b}", case=dict(case, inner_bind=True))
         want = [[x] for x in xs]
         if got != want:
             ctx.violation("oracle", f"clone={clone!r}: items over a mutated {shape} broadcast returned {got}; a single run on a fresh copy returns {want} "
